@@ -642,7 +642,7 @@ def register(M):
         for e in v.els():
             if e.d == OOB:
                 interp.event('oob-read', node=node)
-                raise AnalysisError('masked_invalid reads memory outside the buffer (as_strided overrun)', node)
+                raise AbsRaise(ExcVal('OutOfBoundsRead', ('numpy would silently read memory outside the array buffer here (as_strided view larger than the data)',)), node)
             bad = e.d == X.NAN or (isinstance(e.d, tuple) and e.d[0] == 'fn' and e.d[1] == 'inf')
             if v.dtype == 'M8' and e.d == X.NAN:
                 bad = True     # NaT
